@@ -14,6 +14,7 @@ import Goat.Driver.Str
 import Goat.Driver.Print
 import Goat.Driver.Reload
 import Goat.Driver.Incr
+import Goat.Driver.Host
 /-! goatmodel: one operation per input line, one canonical output line per operation. -/
 open Goat.Driver
 
@@ -33,6 +34,8 @@ def step (st : DriverState) (line : String) : DriverState × String :=
   | "tsort" :: args => (st, tsortCmd args)
   | "opt" :: args => (st, optCmd args)
   | "str" :: args => (st, strCmd args)
+  | "host" :: args => (st, hostCmd false args)
+  | "hostfunc" :: args => (st, hostCmd true args)
   | "incr" :: args => (st, incrCmd args)
   | "rl" :: args => let (r, o) := rlCmd st.rl args; ({ st with rl := r }, o)
   | "print" :: args => let (h, o) := printCmd st.heap args; ({ st with heap := h }, o)
